@@ -108,7 +108,8 @@ def text_strategy(special=False):
                                            max_codepoint=0x2FFF), max_size=8)
     ascii_punct = st.text(alphabet=st.sampled_from(list("ab01 -+.:,#'\"[]{}&*!|>%@`?=~\\\n\t_eE")), max_size=7)
     rx = st.one_of(*[st.from_regex(r, fullmatch=True) for r in _resolver_regexes()]).filter(lambda s: len(s) < 40 and "\x00" not in s)
-    parts = [st.sampled_from(LOOKALIKE), st.sampled_from(LOOKALIKE), plain, ascii_punct, ascii_punct, rx]
+    edge = st.sampled_from(["", "", " ", "-", "0", "null", "~"])  # the empty string and friends get a weight of their own
+    parts = [st.sampled_from(LOOKALIKE), st.sampled_from(LOOKALIKE), plain, ascii_punct, ascii_punct, rx, edge]
     if special:
         parts.append(st.builds(lambda a, c, b: a + c + b, st.sampled_from(["", "a", "x "]), st.sampled_from(YAML_SPECIAL_CHARS), st.sampled_from(["", "b"])))
         parts.append(st.text(alphabet=alphabet, max_size=6))
